@@ -174,6 +174,38 @@ theorem invariant {P : Proto} {s0 : State P} (Inv : State P → Prop) (h0 : Inv 
   | init => exact h0
   | step a _ he ih => exact hstep _ a _ ih he
 
+/-! ### histories: the operations executed along a run, with the values they returned -/
+
+structure Ev where
+  tid : TId
+  op : AOp
+  res : Int
+  deriving Repr, DecidableEq
+
+/-- the visible event (operation + returned value) of an action, if it executes an operation -/
+def evOf {P : Proto} (s : State P) : Act P → Option Ev
+  | .step t =>
+    match P.op (s.loc t) with
+    | some (.fwait f e timed) => some ⟨t, .fwait f e timed, s.mem f⟩
+    | some o => match memEffect s.mem o with
+      | some (r, _) => some ⟨t, o, r⟩
+      | none => none
+    | none => none
+  | .wake t ws =>
+    match P.op (s.loc t) with
+    | some o => some ⟨t, o, ws.length⟩
+    | none => none
+  | _ => none
+
+/-- run an action list, collecting the history of executed operations -/
+def runEvs {P : Proto} (s : State P) : List (Act P) → Option (State P × List Ev)
+  | [] => some (s, [])
+  | a :: as => match exec s a with
+    | some s' => match runEvs s' as with
+      | some (sf, evs) => some (sf, (match evOf s a with | some e => [e] | none => []) ++ evs)
+      | none => none
+    | none => none
+
 def initState (P : Proto) (idle : P.L) (mem : Fld → Int) : State P :=
   { mem := mem, loc := fun _ => idle, parked := fun _ => none, threads := [] }
 
